@@ -270,6 +270,13 @@ Qed.
 
 (* ---------- admissible types ---------- *)
 Definition elem_ok (e : ty) : bool := match e with TPtr _ _ => is_ld e | _ => true end.
+(* no smart pointer inside (the size of such a TRIVIAL type really is independent of the value) *)
+Fixpoint ptr_free (t : ty) : bool :=
+  match t with
+  | TPtr _ _ => false
+  | TAgg fs => forallb (fun p => ptr_free (snd p)) fs
+  | _ => true
+  end.
 Fixpoint ty_ok (t : ty) : Prop :=
   match t with
   | TS _ | TStr => True
@@ -289,6 +296,43 @@ Proof.
   - constructor. - exact I.
   - destruct H as (A & B & C). constructor; [auto|]. apply IH, C.
   - inversion H as [|? ? [A B] C]; subst. split; [auto|]. split; [auto|]. apply IH, C.
+Qed.
+
+(* ---------- TRIVIAL types without pointers have one size ---------- *)
+Fixpoint tsize (t : ty) : Z :=
+  match t with
+  | TS KF32 => 4
+  | TS KF64 => 8
+  | TAgg fs => (fix go (fs : list (Z * ty)) : Z :=
+                  match fs with [] => 0 | p :: r => field_size (fst p) (snd p) (tsize (snd p)) + go r end) fs
+  | _ => 0
+  end.
+(* since 8a146e9 a smart pointer is never TRIVIAL: TRIVIAL types hide no pointer *)
+Lemma trivial_ptr_free : forall t, trivial t = true -> ptr_free t = true.
+Proof.
+  induction t using ty_ind'; intros Ht; try reflexivity.
+  - destruct sh; discriminate.
+  - cbn [trivial ptr_free] in *. induction H as [|p fs Hp _ IH]; [reflexivity|].
+    cbn [forallb] in *. apply andb_prop in Ht. destruct Ht as [T1 T2]. rewrite (Hp T1), (IH T2). reflexivity.
+Qed.
+Lemma trivial_size : forall t, trivial t = true -> ptr_free t = true -> forall x, wf t x -> ssize t x = tsize t.
+Proof.
+  induction t using ty_ind'; intros Ht Hp x Hwf; try (cbn in Ht; discriminate); try (cbn in Hp; discriminate).
+  - destruct x; cbn [wf] in Hwf; try contradiction. cbn [ssize]. rewrite sk_size_spec.
+    destruct k; cbn in Ht; try discriminate; reflexivity.
+  - destruct x; cbn [wf] in Hwf; try contradiction. cbn [trivial ptr_free] in Ht, Hp. cbn [ssize tsize].
+    revert l Hwf. induction H as [|[n ft] fs Hft _ IH]; intros l Hwf; destruct l as [|x l]; try contradiction; [reflexivity|].
+    cbn [forallb snd] in Ht, Hp. apply andb_prop in Ht. apply andb_prop in Hp. destruct Ht as [T1 T2], Hp as [P1 P2].
+    destruct Hwf as (Wx & _ & Wr). cbn [fst snd] in *. rewrite (Hft T1 P1 x Wx). f_equal. apply IH; auto.
+Qed.
+Lemma vec_size_shortcut : forall e l, trivial e = true -> ptr_free e = true -> welems e l ->
+  Z.of_nat (length l) * packed_size e (ssize e (hd (VSeq []) l)) = sumZ (map (fun x => packed_size e (ssize e x)) l).
+Proof.
+  intros e l Ht Hp Hl. destruct l as [|x0 l]; [reflexivity|]. cbn [hd].
+  assert (H0 : ssize e x0 = tsize e) by (inversion Hl as [|? ? [W _] _]; subst; apply trivial_size; auto).
+  rewrite H0. clear H0. induction Hl as [|x r [Hx _] _ IH]; [reflexivity|].
+  cbn [length map]. change (sumZ (?a :: ?b)) with (a + sumZ b). rewrite <- IH.
+  rewrite (trivial_size e Ht Hp x Hx). rewrite Nat2Z.inj_succ. lia.
 Qed.
 
 (* ---------- the predicted size is the number of bytes written ---------- *)
@@ -318,7 +362,8 @@ Proof.
   induction t using ty_ind'; intros v Hok Hwf; destruct v; cbn [wf] in Hwf; try contradiction.
   - apply sk_size_exact.
   - reflexivity.
-  - destruct Hok. apply wf_elems in Hwf. cbn [ssize encode]. apply seq_size_exact; auto.
+  - destruct Hok as [Hel Hok]. apply wf_elems in Hwf. cbn [ssize encode].
+    destruct (trivial t) eqn:Tr; [rewrite vec_size_shortcut by auto using trivial_ptr_free|]; apply seq_size_exact; auto.
   - destruct Hok. apply wf_elems in Hwf. cbn [ssize encode]. apply seq_size_exact; auto.
   - destruct Hok. destruct Hwf as [Hwf _]. apply wf_elems in Hwf. cbn [ssize encode]. apply seq_size_exact; auto.
   - (* map *)
@@ -334,7 +379,8 @@ Proof.
     + apply IHt2; auto.
     + pose proof (IHt1 a Hk Wa). unfold small in Sa. lia.
     + apply IHt1; auto.
-  - destruct Hok. destruct Hwf as [_ Hwf]. apply wf_elems in Hwf. cbn [ssize encode]. apply seq_size_exact; auto.
+  - destruct Hok as [Hel Hok]. destruct Hwf as [_ Hwf]. apply wf_elems in Hwf. cbn [ssize encode].
+    destruct (trivial t) eqn:Tr; [rewrite vec_size_shortcut by auto using trivial_ptr_free|]; apply seq_size_exact; auto.
   - cbn. reflexivity.
   - cbn [ssize encode]. apply IHt; auto.
   - (* aggregate *)
@@ -1362,3 +1408,12 @@ Proof.
   intros nd sh b H. unfold parse. cbn [decode encode dflt]. rewrite ptr_guard_eq.
   destruct b; [contradiction|]. reflexivity.
 Qed.
+
+(* ---------- the former witness of a wrong predicted size (a vector of TRIVIAL aggregates hiding a smart pointer to
+   float, null first): correct since 8a146e9 ---------- *)
+Lemma se_size_exact_former_witness :
+  let t := TVec (TAgg [(1, TPtr false (TS KF32))]) in
+  let v := VSeq [VSeq [VNull]; VSeq [VSome (VInt 1065353216)]] in
+  wf t v /\ ty_ok t /\ ssize t v = Z.of_nat (length (encode t v)) /\ ssize t v = 7.
+Proof. cbn. unfold small. cbn. repeat split; try lia; repeat constructor; cbn; intuition lia. Qed.
+
